@@ -1,5 +1,10 @@
+import re
+
 from mindsdb_sql.parser.ast.base import ASTNode
 from mindsdb_sql.parser.utils import indent
+
+# names the lexer reads without quotes
+no_wrap_variable_regex = re.compile(r'[a-zA-Z_.$]+')
 
 
 class Variable(ASTNode):
@@ -13,5 +18,8 @@ class Variable(ASTNode):
         return indent(level) + f'Variable(value={repr(self.value)}{alias_str}, is_system_var={repr(self.is_system_var)})'
 
     def get_string(self, *args, **kwargs):
-        return ('@@' if self.is_system_var else '@') + f'{str(self.value)}'
+        name = str(self.value)
+        if not no_wrap_variable_regex.fullmatch(name) and '`' not in name:
+            name = f'`{name}`'
+        return ('@@' if self.is_system_var else '@') + name
 
